@@ -16,6 +16,7 @@ import dns.name
 import dns.rdata
 import dns.rdataset
 import dns.rdatatype
+import dns.zone
 
 from .. import engines
 
@@ -264,7 +265,16 @@ def run_case(case):
     probs = []
     rel = case["relativize"]
     try:
-        if case["mode"] == "load":
+        if case["mode"] == "textload":
+            # the zone-file route: origin learned from $ORIGIN (origin argument None) or given
+            lines = ["$ORIGIN example."]
+            content = {}
+            for key, t in [("@", "SOA"), ("@", "NS")] + [tuple(x) for x in case["records"]]:
+                lines.append("%s 10 IN %s %s" % (key, t, RD[t].to_text()))
+                content.setdefault(absname(key), set()).add(t)
+            z = dns.zone.from_text("\n".join(lines) + "\n", origin=ORIGIN if case["origin_given"] else None,
+                                   relativize=rel, zone_factory=dns.btreezone.Zone)
+        elif case["mode"] == "load":
             z = dns.btreezone.Zone(ORIGIN, relativize=rel)
             content = {}
             with z.writer(True) as txn:
@@ -282,7 +292,8 @@ def run_case(case):
 
 def recheck(case):
     probs, _ = run_case(case)
-    return [("C20/" + s, w) for s, w in probs]
+    suffix = "/origin-from-$ORIGIN" if case.get("mode") == "textload" and not case.get("origin_given") else ""
+    return [("C20/" + s + suffix, w) for s, w in probs]
 
 
 def single_ops():
@@ -333,6 +344,15 @@ def _load_task(task, col):
             col.violation("C20/" + s, w + " (load order %s)" % (perm,), case)
         if cn is not None:
             col.nontrivial(("load", rel, cn))
+        for given in (False, True):
+            case = {"mode": "textload", "relativize": rel, "records": [list(r) for r in perm], "origin_given": given}
+            probs, cn = run_case(case)
+            col.count("evaluations")
+            col.count("text_loads")
+            col.outcome("textload:" + (probs[0][0].split("/")[0] if probs else "ok"))
+            for s, w in probs:
+                col.violation("C20/" + s + ("/origin-from-$ORIGIN" if not given else ""), w + " (zone text, origin argument %s, order %s)" % (
+                    "given" if given else "None", perm,), case)
 
 
 def run(ctx):
